@@ -166,6 +166,11 @@ func main() {
 		for _, ri := range rep.Rules {
 			fmt.Printf("   %-7s %3d instance(s) (floor %d)  %s\n", ri.ID, ri.Count, ri.Floor, ri.Text)
 		}
+		if os.Getenv("GOCHK_VERBOSE") != "" {
+			for _, o := range rep.Obls {
+				fmt.Printf("     [%s] %s %s @ %s: %s\n", o.Status, o.Rule, o.Key, o.Pos, o.Detail)
+			}
+		}
 		var replays []string
 		if !*noEvidence {
 			cmdline := fmt.Sprintf("/verif/bin/gochk -repo %s -verif %s -prop %s -tier %s", *repo, *verif, id, *tier)
